@@ -48,6 +48,9 @@ def main(argv):
     if cmd == "selftest-mutants":
         from simkit import selftest
         return selftest.mutants(rest)
+    if cmd == "selftest-oscore":
+        from simkit import oscore_env
+        return oscore_env.selftest()
     if cmd == "digests":
         from simkit import selftest
         return selftest.print_digests(rest[0], int(rest[1]), seed, jobs or 1)
